@@ -74,7 +74,7 @@ class StderrFileCreator(FileCreator):
 
     def create(self, tmp_file_space: DirFileSpace) -> Path:
         output_path = tmp_file_space.new_path(process_output_files.STDERR_FILE_NAME)
-        with output_path.open('w+') as output_f:
+        with output_path.open('w+', errors='replace') as output_f:
             exit_code = self._execute(output_f)
             if exit_code != 0:
                 self._raise_hard_error(exit_code, output_f)
